@@ -176,13 +176,6 @@ pub uninterp spec fn live_nullish(text: Seq<char>, style: ScalarStyle) -> bool;
 /// the user's `R: std::io::Read` (or the ring-buffer handle around it), opaque
 #[verifier::external_body]
 pub struct ByteReader { _p: () }
-/// the fields of `crate::Options` that reach `LiveEvents::from_str` / `from_reader`
-pub struct EntryOptions {
-    pub budget: Option<Budget>,
-    pub budget_report: Option<ReportFn>,
-    pub budget_report_cb: Option<ReportCb>,
-    pub alias_limits: AliasLimits,
-}
 /// saphyr-parser's `Parser<BufferedInput<ChunkedChars<..>>>`, opaque
 #[verifier::external_body]
 pub struct StreamParser<'a> { _p: std::marker::PhantomData<&'a ()> }
